@@ -225,6 +225,7 @@ func init() {
 			func(c *Ctx) { c.ruleRelock("R-RELOCK") },
 			func(c *Ctx) { c.ruleStartGate("R-STARTGATE") },
 			func(c *Ctx) { c.ruleReadFirst("R-READFIRST") },
+			func(c *Ctx) { c.ruleForwardAll("R-FORWARDALL") },
 			func(c *Ctx) { c.ruleOneDecoder("R-ONEDECODER") },
 			func(c *Ctx) { c.ruleIdleCheck("R-IDLECHECK") },
 			func(c *Ctx) { c.ruleAtomic("R-ATOMIC"); c.R.Floor("R-ATOMIC", 4) },
@@ -365,6 +366,8 @@ func init() {
 			func(c *Ctx) { c.ruleLoadLink("R-LOADLINK") },
 			func(c *Ctx) { c.ruleForward("R-FORWARD") },
 			func(c *Ctx) { c.ruleNsDeref("R-NSDEREF") },
+			func(c *Ctx) { c.ruleKeyID("R-KEYID") },
+			func(c *Ctx) { c.ruleKindSib("R-KINDSIB") },
 			func(c *Ctx) { c.ruleTerm("R-TERM", c.entryData(), false); c.R.Floor("R-TERM", 4) },
 		},
 	})
@@ -381,6 +384,7 @@ func init() {
 		Assumptions: []string{wellFormed},
 		Rules: []func(*Ctx){
 			func(c *Ctx) { c.ruleDescend("R-DESCEND"); c.R.Floor("R-DESCEND", 2) },
+			func(c *Ctx) { c.ruleReflex("R-REFLEX") },
 			func(c *Ctx) { c.ruleEffect("R-EFFECT", c.entryData("ValidateCompatibility"), false, true) },
 			func(c *Ctx) { c.ruleOverlap("R-OVERLAP") },
 			func(c *Ctx) { c.ruleKindGate("R-KINDGATE") },
@@ -427,6 +431,7 @@ func init() {
 			"user's key spelling; the order of segments (the prepend in AddPathSegment is value-level).",
 		Rules: []func(*Ctx){
 			func(c *Ctx) { c.ruleElemPath("R-ELEMPATH") },
+			func(c *Ctx) { c.ruleSegKind("R-SEGKIND") },
 			func(c *Ctx) { c.ruleValueString("R-VALSTRING", c.scopePkg("schema")) },
 			func(c *Ctx) { c.ruleErrOrigin("R-ERRORIGIN") },
 			func(c *Ctx) { c.rulePathSeg("R-PATHSEG") },
